@@ -10,9 +10,13 @@ import sys
 VERIF = os.path.dirname(os.path.dirname(os.path.abspath(__file__)))
 sys.path.insert(0, VERIF)
 
+# only checks reviewed and enabled by the maintainer of /verif are claimed (one id per line)
+ENABLED = set(open(os.path.join(VERIF, "checks", "ENABLED")).read().split())
 CLAIMED = {}
 for f in sorted(glob.glob(os.path.join(VERIF, "checks", "c[0-9]*.py"))):
     pid = os.path.basename(f)[:-3].upper()
+    if pid not in ENABLED:
+        continue
     src = open(f).read()
     if not re.search(r'^META\s*=', src, re.M):
         continue
